@@ -15,6 +15,7 @@ class C17(Spec):
              "JSON/YAML/TOML text parsing is exercised only in the concrete replay (real files in a real working directory, observed through `plugins list` / `plugins info`)"]
     cuts = ["logging statements removed after a syntactic purity screen"]
     assumptions = ["the rule is named consistently by one identifier throughout a configuration (as the property states)",
+                   "-e/-d take a comma separated list whose identifiers are matched after removing surrounding blanks (symbolic Bool cli_list: the identifier alone, or second in 'md998, <identifier>')",
                    "validity table of settings transcribed from newdocs/src/plugins/rule_md*.md and the rules' stated ranges (checks/cfg_sym_table.py)"]
     outside = ["textual parsing of JSON/YAML/TOML inside the symbolic run", "`columnar` table rendering", "extension enable flags", "settings not in the table (front_matter_title, punctuation, names, headings lists, hr style strings)"]
 
